@@ -687,8 +687,9 @@ def observe_case(arg: tuple[int, dict]) -> list[dict]:
     out = []
     combos = [(ax, ay) for ax in case["argsx"] for ay in case["argsy"]]
     rnd = random.Random(base_tid)
-    if len(combos) > 6:
-        combos = rnd.sample(combos, 6)
+    cap = case.get("maxargs", 6)
+    if len(combos) > cap:
+        combos = rnd.sample(combos, cap)
     for j, (ax, ay) in enumerate(combos):
         events, cnt = execute(prep, ax, ay)
         if cnt["judged"]:
@@ -749,7 +750,7 @@ def parse_verdict(v: str) -> tuple[str, str, int]:
 
 
 def judge(check: core.Check, cases: list[dict], label: str) -> None:
-    parts = core.pmap(observe_case, [(i * 10, c) for i, c in enumerate(cases)], chunk=25)
+    parts = core.pmap(observe_case, [(i * 20, c) for i, c in enumerate(cases)], chunk=25)
     flat = [o for p in parts for o in p]
     unusable = [o for o in flat if not o.get("ev")]
     obs = [o for o in flat if o.get("ev")]
@@ -963,6 +964,12 @@ def run(check: core.Check) -> None:
     n2 = 2200 if quick else 30000
     if len(narrow) > n2:
         narrow = rnd.sample(narrow, n2)
+    # the indexing slice (always run in full): a literal index / slice at every position of x and of sequences with an
+    # unpacked part, x every parameter type x every argument the type admits (empty and one-element containers included)
+    ix = core.require_ok(core.run_tlc("MiniPyEmit", "MiniPy.index.cfg", timeout=1800), "MiniPy indexing slice")
+    check.add_tlc("index", ix)
+    index = [{**c, "maxargs": 14} for c in core.emitted_json(ix)]
+    check.cov["indexing_slice_functions"] = len(index)
     singles_y = core.simulate_cases("MiniPyEmit", "MiniPy.sim1y.cfg", 1000 if quick else 12000, depth=12, seed=check.seed + 3,
                                     check=check, first_num=400 if quick else 4000)
     sim = core.simulate_cases("MiniPyEmit", "MiniPy.sim.cfg", 2500 if quick else 40000, depth=45, seed=check.seed + 6,
@@ -977,6 +984,7 @@ def run(check: core.Check) -> None:
         "non-trivial = distinct source texts with at least one judged node evaluation")
     judge(check, singles, "tlc-single-statement")
     judge(check, narrow, "tlc-narrowing-slice")
+    judge(check, index, "tlc-indexing-slice")
     judge(check, singles_y, "tlc-single-statement-xy")
     judge(check, sim, "tlc-simulate")
     ev = check.cov.get("node_evaluations", {})
